@@ -17,7 +17,7 @@ Not decided: union branch selection, default values, idempotence, `validate(reso
 import os
 import tomllib
 import facts as factsmod
-from mir import Program, callee_names, op_local, calls_named
+from mir import Program, callee_names, op_local, calls_named, edge_only_region
 import common
 import restab
 
@@ -87,6 +87,41 @@ def run(rep, tier="quick", replay=None, evidence_dir=None):
         dflt = any(any("default" in b.opdesc(a) for a in t["args"] if a.get("k") in ("copy", "move")) or any(
             st["s"] == "assign" and st["rv"]["r"] == "discr" and "default" in b.pldesc(st["rv"]["pl"]) for _, _, st in b.stmts()) for b in fam for bi, t in b.calls())
         rep.ob("C08.R3", "the reader field's default is consulted when nothing was written", dflt, "", rr.loc())
+        # order: name, then aliases, then - only then - the default
+        per_field = [x for x in by_name if x[0].kind == "Closure"]
+        if rep.ob("C08.R3", "the name lookup happens in the per-field closure of resolve_record", len(per_field) == 1, "found %d" % len(per_field), rr.loc()):
+            cb, nbi, _ = per_field[0]
+
+            def mentions_aliases(body, depth=0):
+                if any(any("aliases" in body.opdesc(a) for a in t["args"] if a.get("k") in ("copy", "move")) for _, t in body.calls()):
+                    return True
+                if depth < 3:
+                    for _, _, st in body.stmts():
+                        if st["s"] == "assign" and st["rv"]["r"] == "agg" and st["rv"].get("ak") == "closure" and st["rv"].get("def") in prog.bodies:
+                            if mentions_aliases(prog.bodies[st["rv"]["def"]], depth + 1):
+                                return True
+                return False
+            alias_sites = []
+            for bi, t in cb.calls():
+                direct = any("aliases" in cb.opdesc(a) for a in t["args"] if a.get("k") in ("copy", "move"))
+                via = False
+                for a in t["args"]:
+                    if a.get("k") in ("copy", "move") and not a["pl"]["p"]:
+                        sd = cb.single_def(a["pl"]["l"])
+                        if sd and sd[2] == "assign" and sd[3]["r"] == "agg" and sd[3].get("ak") == "closure" and sd[3].get("def") in prog.bodies:
+                            via = via or mentions_aliases(prog.bodies[sd[3]["def"]])
+                if direct or via:
+                    alias_sites.append(bi)
+            dreads = [bi for bi, _, st in cb.stmts() if st["s"] == "assign" and st["rv"]["r"] == "discr" and cb.pldesc(st["rv"]["pl"]).endswith("field.default")]
+            rep.ob("C08.R3", "the alias lookup follows the name lookup", bool(alias_sites) and all(cb.dominates(nbi, a) and a != nbi for a in alias_sites), "alias lookup at %s" % [cb.loc(a) for a in alias_sites], cb.loc(nbi))
+            # the default must be unreachable once the alias lookups are cut out of the CFG (constants and freshly built
+            # Option values are propagated, so `match name { Some(v) => Some(v), None => <alias loop> }` is understood)
+            from shape import hyp_reach
+            noalias = hyp_reach(cb, [0], lambda bi, t: None, stop=set(alias_sites))
+            early = [d for d in dreads if d in noalias and d not in alias_sites]
+            rep.ob("C08.R3", "the reader field's default is looked at only after the alias lookup (a written value wins over the default)",
+                   bool(dreads) and bool(alias_sites) and not early,
+                   "a field the writer wrote under one of the reader's aliases is replaced by the reader's default: default examined at %s without passing the alias lookup at %s" % ([cb.loc(d) for d in early], [cb.loc(a) for a in alias_sites]), cb.loc(dreads[0]) if dreads else cb.loc())
     # ---------------------------------------------------------------- R4
     sites = []
     for b in prog.by_crate["apache_avro"]:
@@ -140,6 +175,86 @@ def run(rep, tier="quick", replay=None, evidence_dir=None):
         rep.ob("C08.R5", "every branch resolve_union resolves against comes from the by-type lookup", ok and not bad,
                "branch taken from elsewhere: %s (a writer union that is not position-compatible with the reader union is then read into the wrong branch)" % bad, ru.loc())
 
+    # ---------------------------------------------------------------- R6 the "same schema, nothing to resolve" shortcut
+    rep.rule("C08.R6", "the container reader skips resolution only for schemas its structural comparison proves equal: different shapes never compare equal, sequences are compared in full")
+    from vpes import Vpes, pair_shapes
+    cmpb = prog.bodies.get("<schema_equality::StructFieldEq as schema_equality::SchemataEq>::compare")
+    if cmpb is None:
+        cands = [b for k, b in prog.bodies.items() if k.endswith("::compare") and "StructFieldEq" in k and b.kind != "Closure"]
+        cmpb = cands[0] if len(cands) == 1 else None
+    if cmpb is None:
+        rep.anchor_error("C08.R6", "StructFieldEq::compare")
+    else:
+        vp = Vpes(prog, cmpb, {2: "schema::Schema", 3: "schema::Schema"})
+        ncell = 0
+        same = {}
+        for sg, reg in pair_shapes(vp, 2, 3):
+            v1, v2 = sg[(2, ())], sg[(3, ())]
+            if isinstance(v1, (set, frozenset, list, tuple)) or isinstance(v2, (set, frozenset, list, tuple)):
+                continue
+            outs = set()
+            for bi in reg:
+                for st in cmpb.blocks[bi]["stmts"]:
+                    if st["s"] == "assign" and st["pl"]["l"] == 0 and not st["pl"]["p"]:
+                        rv = st["rv"]
+                        if rv["r"] == "use" and rv["o"].get("k") == "const" and "int" in rv["o"]:
+                            outs.add(rv["o"]["int"])
+                        else:
+                            outs.add("computed")
+                t = cmpb.blocks[bi]["term"]
+                if t["t"] == "call" and t["dest"]["l"] == 0 and not t["dest"]["p"]:
+                    outs.add("computed")
+            ncell += 1
+            if v1 != v2:
+                rep.ob("C08.R6", "StructFieldEq: a %s schema never compares equal to a %s schema" % (v1, v2), outs <= {0} and bool(outs),
+                       "the comparison can answer %s for schemas of different kinds; the container reader then hands out unresolved values" % sorted(map(str, outs)), cmpb.loc())
+            else:
+                same.setdefault(v1, set()).update(outs)
+        for v1, outs in sorted(same.items()):
+            rep.ob("C08.R6", "StructFieldEq: two %s schemas can compare equal" % v1, bool(outs - {0}), "", cmpb.loc())
+        rep.floor("C08.R6", "shape pairs of the structural comparison", ncell, 700)
+    zips = []
+    for k, b in prog.bodies.items():
+        if b.crate == "apache_avro" and b.file.endswith("schema_equality.rs"):
+            for bi, t in calls_named(b, "std::iter::Iterator::zip"):
+                zips.append((b, bi, t))
+
+    def seq_of(b, op):
+        # the sequence an iterator operand walks: iter(X) / into_iter(X) -> description of X
+        cr = b.call_result_of(op)
+        if cr and cr[1]["args"]:
+            return b.opdesc(cr[1]["args"][0])
+        return b.opdesc(op)
+    for b, bi, t in zips:
+        x, y = seq_of(b, t["args"][0]), seq_of(b, t["args"][1])
+        guarded = False
+        for _, si, st in b.stmts():
+            pass
+        for gbi in range(b.n):
+            for st in b.blocks[gbi]["stmts"]:
+                if st["s"] == "assign" and st["rv"]["r"] == "bin" and st["rv"]["op"] in ("Eq", "Ne") and not st["pl"]["p"]:
+                    sides = []
+                    for o in (st["rv"]["a"], st["rv"]["b"]):
+                        cr = b.call_result_of(o)
+                        if cr and callee_names(cr[1]["func"])[0].endswith("::len") and cr[1]["args"]:
+                            sides.append(b.opdesc(cr[1]["args"][0]))
+                    if sorted(sides) == sorted([x, y]):
+                        from shape import bool_switch
+                        sw = bool_switch(b, st["pl"]["l"])
+                        same_t = (sw[2] if st["rv"]["op"] == "Eq" else sw[1]) if sw else None
+                        diff_t = (sw[1] if st["rv"]["op"] == "Eq" else sw[2]) if sw else None
+                        if sw and same_t is not None and same_t != diff_t and b.dominates(same_t, bi) and edge_only_region(b, sw[0], same_t) is not None:
+                            guarded = True
+        rep.ob("C08.R6", "%s: zip(%s, %s) is guarded by a comparison of their lengths" % (b.path, x, y), guarded,
+               "Iterator::zip stops at the shorter sequence: a schema whose list is a prefix of the other's compares equal, and the container reader then skips resolution", b.loc(bi))
+    rep.floor("C08.R6", "zip comparisons in schema_equality", len(zips), 2)
+    rb = [b for k, b in prog.bodies.items() if b.crate == "apache_avro" and b.path.startswith("reader::Reader") and any(
+        st["s"] == "assign" and "should_resolve_schema" in b.pldesc(st["pl"]) and st["pl"]["p"] for _, _, st in b.stmts())]
+    for b in rb:
+        # the flag is computed by a `!=` of writer and reader schema
+        srcs = [bi for fam in prog.with_closures(b) for bi, t in fam.calls() if callee_names(t["func"])[0] in ("std::cmp::PartialEq::ne", "std::cmp::PartialEq::eq") and "Schema" in str(t["func"].get("ga"))]
+        rep.ob("C08.R6", "%s derives should_resolve_schema from a comparison of the writer and the reader schema" % b.path, len(srcs) >= 1, "", b.loc())
+    rep.floor("C08.R6", "functions that compute should_resolve_schema", len(rb), 1)
     rep.floor("C08", "obligations", len(rep.obligations), 500)
     rep.not_decided = ["union branch selection by type, default values, idempotence, validate(resolved, R): value-level, need execution",
                        "logical-type *values* read with a reader of the underlying type (date -> long ...): demanded by C09.R1 where the compatibility checker promises it"]
